@@ -256,10 +256,20 @@ func (e2eFamily) Gen(n int, seed int64, mode, tier string) []interface{} {
 			// subscribers, QoS mix; thorough: every 41st case a long run crossing the segment roll (500)
 			s := newScript(rng, 1)
 			np, nsub := 1+rng.Intn(3), 1+rng.Intn(3)
+			// most runs with QoS 0 subscribers (what is written is the message itself); one in three with
+			// QoS 1/2 subscribers on different filter sets that acknowledge most deliveries, late
+			subQ := make([]int, nsub)
+			subF := make([]string, nsub)
+			ackers := rng.Intn(3) == 0
 			for j := 0; j < nsub; j++ {
 				c := fmt.Sprintf("sub%d", j)
 				s.connect(0, c, "c-"+c, "", 60, nil)
-				s.sub(c, []string{[]string{"t/#", "t/+", "#"}[rng.Intn(3)]}, []int{0})
+				subF[j] = []string{"t/#", "t/+", "#"}[rng.Intn(3)]
+				if ackers {
+					subQ[j] = 1 + rng.Intn(2)
+					subF[j] = []string{"t/#", "t/1", "t/2", "t/+"}[rng.Intn(4)]
+				}
+				s.sub(c, []string{subF[j]}, []int{subQ[j]})
 			}
 			for j := 0; j < np; j++ {
 				s.connect(0, fmt.Sprintf("pub%d", j), fmt.Sprintf("c-pub%d", j), "", 60, nil)
@@ -283,10 +293,30 @@ func (e2eFamily) Gen(n int, seed int64, mode, tier string) []interface{} {
 						pl = ""
 					}
 				}
-				m := s.pub(c, fmt.Sprintf("t/%d", k%7), pl, q, ret)
+				topic := fmt.Sprintf("t/%d", k%7)
+				m := s.pub(c, topic, pl, q, ret)
 				if q == 2 {
 					s.ackRaw(c, "pubrel", m)
 				}
+				if ackers && cnt < 100 {
+					// the subscribers this message went to acknowledge it - not always, and in an order of their own
+					for _, j := range rng.Perm(nsub) {
+						hit := subF[j] == "t/#" || subF[j] == "t/+" || subF[j] == topic
+						if !hit || rng.Intn(4) == 0 {
+							continue
+						}
+						sc := fmt.Sprintf("sub%d", j)
+						if subQ[j] == 1 {
+							s.ack(sc, "puback", topic, pl, 1, 0)
+						} else {
+							s.ack(sc, "pubrec", topic, pl, 2, 0)
+							s.ack(sc, "pubcomp", topic, pl, 2, 0)
+						}
+					}
+				}
+			}
+			if ackers {
+				s.add(e2eOp{Op: "check"})
 			}
 			out = append(out, s.in)
 		case "retained":
@@ -448,6 +478,11 @@ func (e2eFamily) Gen(n int, seed int64, mode, tier string) []interface{} {
 				hexs := fmt.Sprintf("%x", b)
 				if rng.Intn(4) == 0 {
 					s.add(e2eOp{Op: "rawconnect", N: 0, C: fmt.Sprintf("h%d", k), Hex: hexs})
+					if rng.Intn(6) == 0 {
+						// a well-formed CONNECT whose client identifier is not well-formed UTF-8
+						odd := []string{"id\xff", "\xc3\x28", "\xed\xa0\x80", "\xff\xfe"}[rng.Intn(4)]
+						s.add(e2eOp{Op: "rawconnect", N: 0, C: fmt.Sprintf("u%d", k), Hex: hex.EncodeToString(encConnect(odd, "", "", 60, &jPub{T: "w/ghost", P: "ghost", Q: 0}, true))})
+					}
 				} else {
 					s.add(e2eOp{Op: "raw", C: v, Hex: hexs})
 				}
@@ -701,6 +736,18 @@ func (e2eFamily) Gen(n int, seed int64, mode, tier string) []interface{} {
 			}
 			for _, mp := range mps {
 				s.add(e2eOp{Op: "eof", C: "pub-" + mp})
+			}
+			if rng.Intn(2) == 0 {
+				// two tenants whose names and client identifiers run into each other when written side by
+				// side ("ta"+"1dev" = "ta1"+"dev"): neither connection may displace the other
+				s.connect(0, "x-ta", "1dev", "ta", 60, nil)
+				s.sub("x-ta", []string{"k/#"}, []int{0})
+				s.connect(0, "x-ta1", "dev", "ta1", 60, nil)
+				s.sub("x-ta1", []string{"k/#"}, []int{0})
+				s.add(e2eOp{Op: "send", C: "x-ta", P: "ping"})
+				s.pub("x-ta1", "k/1", "for-ta1", 0, false)
+				s.pub("x-ta", "k/1", "for-ta", 0, false)
+				s.add(e2eOp{Op: "send", C: "x-ta1", P: "ping"})
 			}
 			s.checks()
 			out = append(out, s.in)
